@@ -327,6 +327,13 @@ def _sim(case, R):
         for ip in range(npaths):
             rec.jump_times, rec.samples, rec.jump_sizes = [], [], []
             rec.normals, rec.coarse = [], []
+            # the pre-drawn jump counts this path is going to consume (fixed dates), read before the simulation
+            rec.next_counts = None
+            for holder in [target] + [v for v in vars(target).values() if hasattr(v, "__dict__")]:
+                q = getattr(holder, "_poisson_rv", None)
+                if q is not None and len(q):
+                    rec.next_counts = [int(c) for c in np.asarray(q[0]).reshape(-1)]
+                    break
             try:
                 path = simulate()
             except Exception as exc:  # noqa: BLE001
@@ -387,6 +394,20 @@ def _judge(R, case, wit, sim, mode, dates, T, eps, path, rec, prod_times, target
             R.violation(f"{tag}-times-not-product-dates", f"times {times.tolist()} vs product dates {prod_times.tolist()}", wit)
             return False
         # jumps per interval: direct -> one jump_increment call per interval; chains -> one sampler call per interval
+        if len(sizes) != n - 1 and sim == "direct" and getattr(rec, "next_counts", None) is not None and len(rec.next_counts) == n - 1 \
+                and sum(rec.next_counts) == n_jumps:
+            # the jump sizes were not drawn interval by interval: in draw order, interval k owns the next N_k of them
+            flat1 = np.concatenate([np.atleast_1d(s) for s in sizes]) if sizes else np.zeros(0)
+            cuts = np.cumsum([0] + rec.next_counts)
+            sizes = [flat1[cuts[k]:cuts[k + 1]] for k in range(n - 1)]
+            got0 = np.diff(jf)
+            # (sound whatever the assignment of the drawn sizes to the intervals: an interval without jump does not move, the total is the total)
+            for k in range(n - 1):
+                if rec.next_counts[k] == 0 and got0[k] != 0.0:
+                    R.violation(f"{tag}-interval-without-jump-moves", f"{sim} fixed dates, jump counts {rec.next_counts}: the jump path moves by {float(got0[k])!r} over "
+                                f"interval {k}, in which no jump occurs (drawn sizes {flat1.tolist()[:8]})", wit)
+                    return False
+            R.hit("fixed_date_paths_judged_from_the_pre_drawn_counts")
         if len(sizes) != n - 1:
             R.skip("recorded jump blocks do not match the intervals")
             return True
